@@ -1,5 +1,6 @@
 import Sml.Props.C16
 import Sml.Lemmas.C16Next
+import Sml.Lemmas.C16NoTrunc
 /- Axiom audit for property C16: only propext / Classical.choice / Quot.sound may appear. -/
 #print axioms Sml.C16.exact_fit
 #print axioms Sml.C16.exact_fit_iter
@@ -15,3 +16,7 @@ import Sml.Lemmas.C16Next
 #print axioms Sml.C16.next_frame_reader
 #print axioms Sml.C16.startFree_rest_of_no_1b
 #print axioms Sml.C16.next_frame_of_no_1b
+#print axioms Sml.C16.msg_after_err
+#print axioms Sml.C16.too_small_no_truncation
+#print axioms Sml.C16.too_small_idle
+#print axioms Sml.C16.too_small_no_truncation_idle
